@@ -49,12 +49,22 @@ func (c *Ctx) chipFields(mover *ssa.Function) map[string]bool {
 	if mover == nil {
 		return out
 	}
-	for _, w := range c.P.Index().Info[mover].Writes {
-		if !strings.HasPrefix(w.Key, "pokerface.PlayerState.") && !strings.HasPrefix(w.Key, "pokerface.Status.") {
-			continue
+	ix := c.P.Index()
+	fns := []*ssa.Function{mover}
+	// package-private loop-free helpers of the mover count as part of it
+	for _, cc := range ix.Info[mover].Calls {
+		if f := cc.StaticCallee(); f != nil && privateHelper(mover, f) && len(findLoops(f)) == 0 {
+			fns = append(fns, f)
 		}
-		if st, ok := w.Instr.(*ssa.Store); ok && isIntType(st.Val.Type()) {
-			out[w.Key] = true
+	}
+	for _, f := range fns {
+		for _, w := range ix.Info[f].Writes {
+			if !strings.HasPrefix(w.Key, "pokerface.PlayerState.") && !strings.HasPrefix(w.Key, "pokerface.Status.") {
+				continue
+			}
+			if st, ok := w.Instr.(*ssa.Store); ok && isIntType(st.Val.Type()) {
+				out[w.Key] = true
+			}
 		}
 	}
 	return out
@@ -143,7 +153,7 @@ func runC11(c *Ctx) {
 		{"call", func(ps *PathSum, amt *Val) (bool, string) {
 			low := false
 			for _, cd := range ps.Conds {
-				if cd.V.K == KAtom && cd.V.At.Op == "lt" && !cd.V.Neg && cd.V.At.A.String() == "-GS.Meta.Blind.BB + GS.Status.CurrentWager" {
+				if ltIs(cd.V, "-GS.Meta.Blind.BB + GS.Status.CurrentWager") {
 					low = true
 				}
 			}
@@ -365,6 +375,7 @@ func runPayFacts(c *Ctx, ea *engineAnchors, mover *ssa.Function) {
 	p := c.P
 	c.touch(fnKey(mover))
 	s := newSumm(p, 0)
+	s.HelperInline = func(f *ssa.Function) bool { return privateHelper(mover, f) && len(findLoops(f)) == 0 }
 	paths, cut := s.Function(mover)
 	if cut != "" {
 		c.undecided("pay-facts", fnKey(mover), p.FnPos(mover), "summary cut: "+cut)
@@ -376,7 +387,7 @@ func runPayFacts(c *Ctx, ea *engineAnchors, mover *ssa.Function) {
 	for _, ps := range paths {
 		allin := false
 		for _, cd := range ps.Conds {
-			if cd.V.K == KAtom && cd.V.At.Op == "le" && !cd.V.Neg && cd.V.At.A.String() == "PS(recv).StackSize - "+amt {
+			if ltIs(cd.V, "PS(recv).StackSize - "+amt+" - 1") {
 				allin = true
 			}
 		}
@@ -401,7 +412,7 @@ func runPayFacts(c *Ctx, ea *engineAnchors, mover *ssa.Function) {
 			raised := false
 			isW := false
 			for _, cd := range ps.Conds {
-				if cd.V.K == KAtom && cd.V.At.Op == "lt" && !cd.V.Neg && cd.V.At.A.String() == "GS.Status.CurrentWager - PS(recv).Wager - "+amt {
+				if ltIs(cd.V, "GS.Status.CurrentWager - PS(recv).Wager - "+amt) {
 					raised = true
 				}
 				if cd.V.K == KAtom && cd.V.At.Op == "b" && !cd.V.Neg && strings.HasPrefix(cd.V.At.L, "param:") {
